@@ -178,7 +178,7 @@ class Facts(Walker):
             a, b = self.vn(node.body, st), self.vn(node.orelse, st)
             return a if a == b else "ite(%s,%s,%s)" % (self.vn(node.test, st), a, b)
         if isinstance(node, ast.Compare):
-            return "cmp(%s)" % ast.unparse(node)
+            return "cmp(%s;%s)" % (self.vn(node.left, st), ";".join("%s %s" % (type(o).__name__, self.vn(c, st)) for o, c in zip(node.ops, node.comparators)))
         return self.fresh("expr", node)
 
     def vn_index(self, sl, st):
